@@ -330,6 +330,9 @@ def catalogue(tier="quick"):
     out.append(("quintuplet", Doc([Staff(1, measures=[[[N(s, 4, 16, tuplet=(5, 4)) for s in "CDEFG"] + [N("A", 4), N("B", 4, 2)]], [[N("C", 5, 1)]]])]), both))
     out.append(("chords", Doc([Staff(1, measures=[[[C([("C", None, 4), ("E", None, 4), ("G", None, 4)], 2), C([("D", None, 4), ("F", 1, 4)], 4, 1), N("A", 4, 8)]],
                                                    [[C([("B", -1, 3), ("D", None, 4)], 1)]]])]), both))
+    out.append(("left_hand_chords_under_a_melody", Doc([Staff(1, measures=[[[N("E", 5, 4), N("F", 5, 4), N("G", 5, 4), N("B", 5, 4)]], [[N("C", 6, 2), N("D", 6, 4), N("E", 6, 4)]]]),
+                                                        Staff(2, clef=("F", 4), measures=[[[C([("C", None, 3), ("G", None, 3)], 2), C([("D", None, 3), ("A", None, 3)], 4), N("E", 3, 4)]],
+                                                                                          [[C([("F", None, 2), ("C", None, 3), ("A", None, 3)], 4, 1), N("G", 2, 8), C([("C", None, 3), ("E", None, 3)], 2)]]])]), both))
     out.append(("ties", Doc([Staff(1, measures=[[[N("C", 4, 2), N("D", 4, 2, tie="start")]], [[N("D", 4, 4, tie="cont"), N("E", 4, 2, 1)]],
                                                  [[N("D", 4, 2), N("F", 4, 2, tie="start")]], [[N("F", 4, 1, tie="stop")]]])]), both))
     out.append(("tie_chain", Doc([Staff(1, measures=[[[N("G", 4, 1, tie="start")]], [[N("G", 4, 1, tie="cont")]], [[N("G", 4, 2, tie="stop"), R(2)]]])]), both))
